@@ -419,7 +419,7 @@ def for_body_exit(S, outcome):
     flow = S.vars["flow"].get("how")
     spawned = S.vars["spawned"]
     new_pending = [t for t in S.vars["pending"] if t not in S.vars["pending0"]]
-    T = {"props": ["C05", "C13", "C19"]}
+    T = {"props": ["C05", "C13", "C19"] + (["C16"] if kind == "TimeoutError" else [])}  # a timed-out reader/transfer ends the session (C16)
     if outcome[0] == "raise":
         en = outcome[1].cls.name
         # only a task's own non-PathIOError exception may leave the loop (it ends this session through the outer handlers)
